@@ -98,6 +98,10 @@ def run_impl(which, B, **kw):
     else:
         A = B.copy()
     require(np.array_equal(A, B), "harness: layout changed values")
+    if int(abs(B).sum() * 13) % 3 == 0:
+        # counts the caller cannot write to (np.load(..., mmap_mode='r'), a broadcast view, a frozen array): the
+        # estimators only read them
+        A.flags.writeable = False
     with warnings.catch_warnings(record=True) as w:
         warnings.simplefilter("always")
         out = fn(A, **kw)
